@@ -14,6 +14,7 @@ import (
 // the kernel (`decide`) without going through String's UTF-8 representation.
 func init() {
 	generators["C20"] = func() {
+		problemsBefore := len(problems)
 		l := newLean("C20", "Facts about pkg/scanner/parser/date/date.go (KnownFormats, terms) and pkg/lql/datetime.go (dateTimeParser list,\nparseLqlDateTime).")
 
 		strLit := func(e ast.Expr) (string, bool) {
@@ -166,7 +167,7 @@ func init() {
 		if fd := funcDecl(df, "Format", "Parse"); fd == nil {
 			problem("date.Format.Parse not found")
 		} else {
-			ast.Inspect(fd.Body, func(n ast.Node) bool {
+			inspectWithHelpers(df, fd, 2, func(n ast.Node) bool {
 				if ce, ok := n.(*ast.CallExpr); ok {
 					if id, ok := ce.Fun.(*ast.Ident); ok {
 						if id.Name == "adjustYear" {
@@ -298,11 +299,25 @@ func init() {
 		if fd := funcDecl(df, "", "NewParser"); fd == nil {
 			problem("date.NewParser not found")
 		} else {
+			// by structure, not by names of locals: a Sprintf whose format literal holds the named group and one of whose
+			// arguments is the call regexpMap(..); looked for in NewParser and the same-package helpers it calls (depth <= 2)
 			pat := ""
-			ast.Inspect(fd.Body, func(n ast.Node) bool {
-				if ce, ok := n.(*ast.CallExpr); ok {
-					if se, ok := ce.Fun.(*ast.SelectorExpr); ok && se.Sel.Name == "Sprintf" && len(ce.Args) == 3 {
-						if sv, ok := strLit(ce.Args[0]); ok && strings.Contains(sv, "(?P<") {
+			inspectWithHelpers(df, fd, 2, func(n ast.Node) bool {
+				ce, ok := n.(*ast.CallExpr)
+				if !ok || len(ce.Args) < 2 {
+					return true
+				}
+				se, ok := ce.Fun.(*ast.SelectorExpr)
+				if !ok || se.Sel.Name != "Sprintf" {
+					return true
+				}
+				sv, ok := strLit(ce.Args[0])
+				if !ok || !strings.Contains(sv, "(?P<") {
+					return true
+				}
+				for _, a := range ce.Args[1:] {
+					if c, ok := a.(*ast.CallExpr); ok {
+						if id, ok := c.Fun.(*ast.Ident); ok && id.Name == "regexpMap" {
 							pat = sv
 						}
 					}
@@ -362,6 +377,35 @@ func init() {
 		l.p("/-- `Format.Parse` calls `adjustYear` / `adjustDate` -/")
 		l.p("def formatParseAdjustsYear : Bool := %s", leanBool(adjYear))
 		l.p("def formatParseAdjustsDate : Bool := %s", leanBool(adjDate))
+		if len(problems) > problemsBefore {
+			// something the facts are read from was not found: keep the last good facts instead of regenerating defaults
+			// (the problems are reported and count as broken obligations)
+			return
+		}
 		l.write()
 	}
+}
+
+// inspectWithHelpers walks fd's body and, up to the given depth, the bodies of the same-file plain functions it calls
+// (a construction extracted verbatim into a helper is still found). Each function is visited once.
+func inspectWithHelpers(f *ast.File, fd *ast.FuncDecl, depth int, visit func(ast.Node) bool) {
+	seen := map[string]bool{}
+	var walk func(fd *ast.FuncDecl, depth int)
+	walk = func(fd *ast.FuncDecl, depth int) {
+		if fd == nil || fd.Body == nil || seen[fd.Name.Name] {
+			return
+		}
+		seen[fd.Name.Name] = true
+		ast.Inspect(fd.Body, func(n ast.Node) bool {
+			if ce, ok := n.(*ast.CallExpr); ok && depth > 0 {
+				if id, ok := ce.Fun.(*ast.Ident); ok {
+					if h := funcDecl(f, "", id.Name); h != nil {
+						walk(h, depth-1)
+					}
+				}
+			}
+			return visit(n)
+		})
+	}
+	walk(fd, depth)
 }
